@@ -46,7 +46,7 @@ class C13(PipelineCheck):
     assumptions = ['the handler sits directly behind the failing operator (what the statement specifies)',
                    'with handler "none" the failing operator is either the last one of its pipeline, so that the mux error reaches the '
                    'demultiplexer directly, or is followed by operators that hand a mux error on (no take/first, which end a key early)']
-    probe_names = ('dead_letter_subscribed_after_data', 'unhandled_error_through_operators', 'exception_families', 'falsy_exception_raised', 'fault:first', 'fault:last', 'fault:consecutive', 'fault:all_of_a_key', 'handler:ignore', 'handler:error_map',
+    probe_names = ('same_exception_object_raised_again', 'dead_letter_subscribed_after_data', 'unhandled_error_through_operators', 'exception_families', 'falsy_exception_raised', 'fault:first', 'fault:last', 'fault:consecutive', 'fault:all_of_a_key', 'handler:ignore', 'handler:error_map',
                    'handler:router', 'handler:none', 'op:map', 'op:starmap', 'op:filter', 'op:scan', 'stateful_downstream', 'keys>=3',
                    'wrapped_in_window')
 
@@ -153,7 +153,9 @@ class C13(PipelineCheck):
                 break
         plan = [list(x) for x in sorted(set(tuple(x) for x in plan))]
         case = {'program': program, 'events': events, 'end': 'complete', 'style': style, 'handler': handler,
-                'faults': {SITE: plan}, 'pattern': pattern, 'falsy': rng.choice([False, False, False, True, 'types', 'types'])}
+                'faults': {SITE: plan}, 'pattern': pattern, 'falsy': rng.choice([False, False, False, True, 'types', 'types', 'shared'])}
+        if case['falsy'] == 'shared' and handler == 'error_map' and inner[inner.index(op) + 1].get('value') == 'rec':
+            case['falsy'] = False       # the mapped value is derived from the exception's arguments, which a shared object does not have
         if through:
             case['through'] = True
         if handler == 'router' and rng.random() < 0.3:
@@ -225,8 +227,11 @@ class C13(PipelineCheck):
                 for j, v in enumerate(vals):
                     if (v.k, v.n) in plan:
                         from rxsim.core import fault_class
-                        ename = fault_class(falsy, v.k, v.n).__name__
-                        merged.append(('E', seq_of(j), ('exc', ename, (('s', SITE), v.k, v.n))))
+                        if falsy == 'shared':
+                            merged.append(('E', seq_of(j), ('exc', 'InjectedFault', (('s', SITE), ('s', 'shared')))))
+                        else:
+                            ename = fault_class(falsy, v.k, v.n).__name__
+                            merged.append(('E', seq_of(j), ('exc', ename, (('s', SITE), v.k, v.n))))
                     for cv in by_idx.get(j, ()):
                         merged.append(('N', seq_of(j), cv))
                 for cv in by_idx.get(END, ()):
@@ -310,6 +315,8 @@ class C13(PipelineCheck):
         p['handler:' + handler] += 1
         if falsy and fired:
             p['falsy_exception_raised'] += 1
+        if falsy == 'shared' and fired >= 2:
+            p['same_exception_object_raised_again'] += 1
         if falsy == 'types' and fired:
             p['exception_families'] += 1
         p['op:' + opn['op']] += 1
